@@ -11,3 +11,4 @@ import ImathVerif.Props.C18
 import ImathVerif.Props.C02
 import ImathVerif.Props.C03
 import ImathVerif.Props.C19
+import ImathVerif.Props.C06
